@@ -542,22 +542,75 @@ impl Engine for ArcEngine {
         let c_party = rng.chance(1, 2) || simcore::force_c_party();
         let foreign = rng.chance(1, 3);
         let cross_thread = threads > 1;
+        // occupancy model of the generator (approximate kinds: 0 empty slot, 1 CArc-like, 2 Some-like,
+        // 3 Option, 4 std Arc) so that most generated ops find an operand
+        let mut occ: Vec<u8> = vec![0; pool as usize];
+        let shared = p.cfg("shared", 0) as usize;
+        for i in 0..shared.min(pool as usize) {
+            occ[i] = if i % 2 == 0 { 1 } else { 2 };
+        }
+        let pick_slot = |rng: &mut Rng, occ: &[u8], pred: &dyn Fn(u8) -> bool| -> Option<i64> {
+            let c: Vec<usize> = (0..occ.len()).filter(|i| pred(occ[*i])).collect();
+            if c.is_empty() { None } else { Some(c[rng.below(c.len() as u64) as usize] as i64) }
+        };
         for _ in 0..max_steps {
             let t = if cross_thread { rng.below(threads as u64) as u8 } else { 0 };
-            let op = OPS[rng.weighted(&w)];
-            let s0 = rng.below(pool as u64) as i64;
-            let s1 = rng.below(pool as u64) as i64;
+            let mut op = OPS[rng.weighted(&w)];
             let party = if c_party && rng.chance(1, 3) { 1 } else { 0 };
+            let any_full = occ.iter().any(|k| *k != 0);
+            let any_empty = occ.iter().any(|k| *k == 0);
+            if !any_full || (op == "New" && !any_empty) {
+                op = if any_empty { "New" } else { "Drop" };
+            }
+            // one step in six keeps the old uniform choice (ill-formed ops are defined no-ops)
+            let uniform = rng.chance(1, 6);
+            let rs = |rng: &mut Rng| rng.below(pool as u64) as i64;
             match op {
                 "New" => {
                     let kind = if foreign && rng.chance(1, 2) { rng.range(7, 8) } else { *rng.pick(&[0, 1, 2, 3, 4, 5, 6, 9, 0, 1, 2, 3]) };
-                    p.push(t, op, &[kind, s0]);
+                    let s = if uniform { rs(rng) } else { pick_slot(rng, &occ, &|k| k == 0).unwrap_or(0) };
+                    if occ[s as usize] == 0 {
+                        occ[s as usize] = match kind { 1 | 3 | 8 => 2, 9 => 4, _ => 1 };
+                    }
+                    p.push(t, op, &[kind, s]);
                 }
-                "Clone" => p.push(t, op, &[s0, s1, party]),
-                "Take" => p.push(t, op, &[s0, s1]),
-                "ToCArc" => p.push(t, op, &[s0, rng.range(0, 2)]),
-                "Deref" | "Drop" => p.push(t, op, &[s0, party]),
-                _ => p.push(t, op, &[s0]),
+                "Clone" | "Take" => {
+                    let src = if uniform { rs(rng) } else { pick_slot(rng, &occ, &|k| if op == "Take" { k == 1 } else { k != 0 }).unwrap_or_else(|| rs(rng)) };
+                    let dst = if uniform { rs(rng) } else { pick_slot(rng, &occ, &|k| k == 0).unwrap_or_else(|| rs(rng)) };
+                    if src != dst && occ[src as usize] != 0 && occ[dst as usize] == 0 && (op == "Clone" || occ[src as usize] == 1) {
+                        occ[dst as usize] = occ[src as usize];
+                    }
+                    if op == "Clone" { p.push(t, op, &[src, dst, party]) } else { p.push(t, op, &[src, dst]) }
+                }
+                "ToOpt" => {
+                    let s = if uniform { rs(rng) } else { pick_slot(rng, &occ, &|k| k == 1).unwrap_or_else(|| rs(rng)) };
+                    if occ[s as usize] == 1 { occ[s as usize] = 3; }
+                    p.push(t, op, &[s]);
+                }
+                "ToCArc" => {
+                    let s = if uniform { rs(rng) } else { pick_slot(rng, &occ, &|k| k == 2 || k == 3 || k == 4).unwrap_or_else(|| rs(rng)) };
+                    let how = rng.range(0, 2);
+                    if occ[s as usize] >= 2 { occ[s as usize] = if occ[s as usize] == 4 && how == 1 { 2 } else { 1 }; }
+                    p.push(t, op, &[s, how]);
+                }
+                "IntoArc" => {
+                    let s = if uniform { rs(rng) } else { pick_slot(rng, &occ, &|k| k == 2).unwrap_or_else(|| rs(rng)) };
+                    if occ[s as usize] == 2 { occ[s as usize] = 4; }
+                    p.push(t, op, &[s]);
+                }
+                "Opaque" => {
+                    let s = if uniform { rs(rng) } else { pick_slot(rng, &occ, &|k| k == 1 || k == 2).unwrap_or_else(|| rs(rng)) };
+                    p.push(t, op, &[s]);
+                }
+                "Deref" => {
+                    let s = if uniform { rs(rng) } else { pick_slot(rng, &occ, &|k| k != 0).unwrap_or_else(|| rs(rng)) };
+                    p.push(t, op, &[s, party]);
+                }
+                _ => {
+                    let s = if uniform { rs(rng) } else { pick_slot(rng, &occ, &|k| k != 0).unwrap_or_else(|| rs(rng)) };
+                    occ[s as usize] = 0;
+                    p.push(t, "Drop", &[s, party]);
+                }
             }
         }
         p
